@@ -243,6 +243,10 @@ def join_method_chains(lines, counts):
         if out and re.match(r'^\.[A-Za-z_]', t) and not out[-1][0].strip().startswith('//'):
             out[-1] = (out[-1][0].rstrip() + t, out[-1][1])
             counts.bump('T21_chain_line_joined')
+        elif out and t == '{' and re.match(r'^(\} else )?(if|match) ', out[-1][0].strip()) and not out[-1][0].rstrip().endswith(('{', ';', '}')):
+            # the `{` of an `if` / `match` whose head was broken across lines
+            out[-1] = (out[-1][0].rstrip() + ' {', out[-1][1])
+            counts.bump('T21_chain_line_joined')
         else:
             out.append((txt, no))
     return out
